@@ -1,0 +1,34 @@
+//go:build verif
+
+// Contracts for package certexchange, read by /verif/govc. Comments only.
+
+package certexchange
+
+// The server answers a request with the header {pending = latest+1, power table of the first requested instance
+// iff asked for} followed by the stored certificates first, first+1, ... — never more than min(limit, 256) of
+// them and none at or beyond the advertised pending instance. Store.GetRange(start, end) is inclusive.
+//@ func (*Server).handleRequest
+//@   property C16
+//@   harness harness/server_limit_test.go
+//@   modifies auto
+//@   maypanic
+//@   at MarshalCBOR 1
+//@     before[advertises_latest_plus_one] res(Latest, 1) == nil || res(Latest, 1).GPBFTInstance < 18446744073709551615 ==>
+//@          resp.PendingInstance == ite(res(Latest, 1) == nil, 0, res(Latest, 1).GPBFTInstance + 1)
+//@     before[power_table_only_on_request] !(req.IncludePowerTable && resp.PendingInstance >= req.FirstInstance) ==> len(resp.PowerTable) == 0
+//@   at GetPowerTable 1
+//@     before[power_table_of_first_requested_instance] arg(2) == req.FirstInstance && req.IncludePowerTable && resp.PendingInstance >= req.FirstInstance
+//@   at GetRange 1
+//@     before[starts_at_requested_instance] arg(2) == req.FirstInstance
+//@     before[never_more_than_requested] arg(3) >= arg(2) && arg(3) - arg(2) + 1 <= min(req.Limit, 256)
+//@     before[never_at_or_beyond_pending] arg(3) < resp.PendingInstance
+
+// The receiving goroutine of Client.Request (the sixth function literal in Request): a certificate is handed to the
+// caller only if it is the next one in sequence from the requested instance, and at most Limit of them are.
+//@ func (*Client).Request$6
+//@   property C16
+//@   modifies auto
+//@   maypanic
+//@   at select 1
+//@     before[delivers_only_in_sequence] request.FirstInstance + i <= 18446744073709551615 ==> cert.GPBFTInstance == request.FirstInstance + i
+//@     before[delivers_at_most_limit] i < request.Limit
